@@ -286,3 +286,55 @@ def tier_from_argv():
         else:
             i += 1
     return tier, replay
+
+
+# ---------------------------------------------------------------------------------------------
+# C++ harnesses that enumerate by themselves (harness/isolate.hpp protocol)
+
+def _cpp_shard(shard, nshards, exe, args, env, timeout):
+    e = dict(os.environ)
+    e.update(ASAN_ENV)
+    e['ASAN_OPTIONS'] += ':symbolize=0'
+    if env:
+        e.update(env)
+    path = exe if os.path.isabs(exe) else os.path.join(HBIN, exe)
+    errp = os.path.join(BUILD, 'tmp', '%s.%d.err' % (os.path.basename(exe), shard))
+    os.makedirs(os.path.dirname(errp), exist_ok=True)
+    with open(errp, 'wb') as ef:
+        try:
+            p = subprocess.run([path] + [str(a) for a in args] + [str(shard), str(nshards)], stdout=subprocess.PIPE,
+                               stderr=ef, env=e, timeout=timeout)
+            rc, out = p.returncode, p.stdout
+        except subprocess.TimeoutExpired as te:
+            rc, out = 'timeout', te.stdout or b''
+    counts, viols, samples = {}, [], []
+    for line in out.decode('utf-8', 'replace').splitlines():
+        f = line.split('\t')
+        if f[0] == 'count' and len(f) >= 3:
+            counts[f[1]] = counts.get(f[1], 0) + int(f[2])
+        elif f[0] == 'viol' and len(f) >= 3:
+            viols.append((unesc(f[1]), unesc(f[2])))
+        elif f[0] == 'sample' and len(f) >= 2:
+            samples.append(unesc(f[1]))
+    return {'rc': rc, 'counts': counts, 'viols': viols, 'samples': samples, 'stderr': errp}
+
+
+def run_cpp_sharded(exe, args=(), env=None, timeout=3600, nshards=None):
+    """Runs `exe args... <shard> <nshards>` for every shard; merges the isolate.hpp protocol output."""
+    res = run_sharded(_cpp_shard, (exe, list(args), env, timeout), nshards)
+    counts = merge_counts([r['counts'] for r in res])
+    viols, samples, bad = [], [], []
+    for r in res:
+        viols += [Violation(s, {'case': d}) for s, d in r['viols']]
+        samples += r['samples']
+        if r['rc'] != 0:
+            bad.append(r)
+    for r in bad:
+        # the harness process itself (not an isolated child) ended abnormally: that is a verdict too
+        tail = ''
+        try:
+            tail = open(r['stderr'], 'rb').read()[-1500:].decode('utf-8', 'replace')
+        except Exception:
+            pass
+        viols.append(Violation('harness|abnormal-exit|%s' % r['rc'], {'stderr_tail': tail}))
+    return counts, viols, samples
